@@ -473,6 +473,37 @@ func init() {
 						}
 					}
 					obs = append(obs, tableOb{name: "C20#cache:" + fn, ok: n == 1, what: fmt.Sprintf("%s is expected to fill its plan cache with exactly one sync.Map store (found %d)", fn, n)})
+					// the plan is a function of the type alone only if the cache is keyed by the reflect.Type
+					// itself: the key of every sync.Map access is the function's parameter, converted to any
+					keyOK, accesses := true, 0
+					for _, b := range f.Blocks {
+						for _, ins := range b.Instrs {
+							c, ok := ins.(ssa.CallInstruction)
+							if !ok {
+								continue
+							}
+							callee := c.Common().StaticCallee()
+							if callee == nil || callee.Pkg == nil || callee.Pkg.Pkg.Path() != "sync" || callee.Signature.Recv() == nil || !strings.HasSuffix(callee.Signature.Recv().Type().String(), "sync.Map") {
+								continue
+							}
+							args := c.Common().Args
+							if len(args) < 2 {
+								continue
+							}
+							accesses++
+							var src ssa.Value
+							switch k := args[1].(type) {
+							case *ssa.ChangeInterface:
+								src = k.X
+							case *ssa.MakeInterface:
+								src = k.X
+							}
+							if len(f.Params) == 0 || src != ssa.Value(f.Params[0]) {
+								keyOK = false
+							}
+						}
+					}
+					obs = append(obs, tableOb{name: "C20#cache-key:" + fn, ok: keyOK && accesses >= 2, what: fmt.Sprintf("%s must key every access of its plan cache by its reflect.Type parameter itself (%d accesses seen); a derived key (a name, a kind) lets the plan of one type be used for another", fn, accesses)})
 				}
 			}
 			if !found {
@@ -701,6 +732,151 @@ func init() {
 			er.records[i].Kind = "gframe"
 			er.records[i].Func = strings.TrimPrefix(er.records[i].Name, "C13#fieldframe:")
 			er.records[i].Solver = "frame inference over go/ssa (no solver needed)"
+		}
+		return er
+	}
+}
+
+// sends — "a goroutine of a connection never blocks for ever on a channel send": a structural sufficient
+// condition over go/ssa of the packages kmipserver and kmipclient. Every send that is not an alternative of a
+// select with at least one other alternative (in this code: the connection or call context being done) must be on
+// a channel whose every creation site, found through the struct field that carries it, is a make(chan T, n) with
+// a constant n >= 1 (the code sends at most once on such a channel before closing it: not checked). This is the
+// schedule-independent part of the clauses "no goroutine of an ended connection is kept" of C08, C11 and C16.
+func init() {
+	extraCheckers["sends"] = func(pc *PropConfig, l *Loaded, tier string, seed int, replayDir string) extraResult {
+		mod := "github.com/ovh/kmip-go"
+		inScope := func(f *ssa.Function) bool {
+			if f.Pkg == nil {
+				if f.Parent() != nil && f.Parent().Pkg != nil {
+					p := f.Parent().Pkg.Pkg.Path()
+					return p == mod+"/kmipserver" || p == mod+"/kmipclient"
+				}
+				return false
+			}
+			p := f.Pkg.Pkg.Path()
+			return p == mod+"/kmipserver" || p == mod+"/kmipclient"
+		}
+		type fieldKey struct {
+			st  string
+			idx int
+		}
+		keyOf := func(t types.Type, idx int) (fieldKey, bool) {
+			if p, ok := t.Underlying().(*types.Pointer); ok {
+				t = p.Elem()
+			}
+			if _, ok := t.Underlying().(*types.Struct); !ok {
+				return fieldKey{}, false
+			}
+			return fieldKey{typeKey(t), idx}, true
+		}
+		funcs := allFunctions(l.prog, mod)
+		stores := map[fieldKey][]ssa.Value{}
+		for _, f := range funcs {
+			if !inScope(f) {
+				continue
+			}
+			for _, b := range f.Blocks {
+				for _, ins := range b.Instrs {
+					if st, ok := ins.(*ssa.Store); ok {
+						if fa, ok := st.Addr.(*ssa.FieldAddr); ok {
+							if _, isChan := st.Val.Type().Underlying().(*types.Chan); isChan {
+								if k, ok := keyOf(fa.X.Type(), fa.Field); ok {
+									stores[k] = append(stores[k], st.Val)
+								}
+							}
+						}
+					}
+				}
+			}
+		}
+		buffered := func(v ssa.Value) bool {
+			for {
+				// a bidirectional channel stored into a send-only field goes through a type change
+				if ct, ok := v.(*ssa.ChangeType); ok {
+					v = ct.X
+					continue
+				}
+				break
+			}
+			mc, ok := v.(*ssa.MakeChan)
+			if !ok {
+				return false
+			}
+			c, ok := mc.Size.(*ssa.Const)
+			return ok && c.Value != nil && c.Int64() >= 1
+		}
+		var obs []tableOb
+		plain := 0
+		for _, f := range funcs {
+			if !inScope(f) {
+				continue
+			}
+			ord := 0
+			for _, b := range f.Blocks {
+				for _, ins := range b.Instrs {
+					switch s := ins.(type) {
+					case *ssa.Select:
+						hasSend := false
+						for _, stt := range s.States {
+							if stt.Dir == types.SendOnly {
+								hasSend = true
+							}
+						}
+						if hasSend {
+							obs = append(obs, tableOb{name: fmt.Sprintf("%s#send:%s#%d", pc.ID, relFuncName(f), ord), ok: !s.Blocking || len(s.States) >= 2,
+								what: fmt.Sprintf("%s: a select with a send as its only alternative blocks for ever when nobody receives (%s)", relFuncName(f), l.prog.Fset.Position(s.Pos()))})
+							ord++
+						}
+					case *ssa.Send:
+						plain++
+						pos := l.prog.Fset.Position(s.Pos())
+						ok := false
+						why := "the channel is not created buffered in sight"
+						switch c := s.Chan.(type) {
+						case *ssa.MakeChan:
+							ok = buffered(c)
+						case *ssa.Field:
+							if k, kok := keyOf(c.X.Type(), c.Field); kok {
+								ok = len(stores[k]) > 0
+								for _, v := range stores[k] {
+									if !buffered(v) {
+										ok = false
+										why = fmt.Sprintf("field %s#%d is assigned an unbuffered or unknown channel", k.st, k.idx)
+									}
+								}
+							}
+						case *ssa.UnOp:
+							if fa, isFA := c.X.(*ssa.FieldAddr); isFA {
+								if k, kok := keyOf(fa.X.Type(), fa.Field); kok {
+									ok = len(stores[k]) > 0
+									for _, v := range stores[k] {
+										if !buffered(v) {
+											ok = false
+											why = fmt.Sprintf("field %s#%d is assigned an unbuffered or unknown channel", k.st, k.idx)
+										}
+									}
+								}
+							}
+						}
+						obs = append(obs, tableOb{name: fmt.Sprintf("%s#send:%s#%d", pc.ID, relFuncName(f), ord), ok: ok,
+							what: fmt.Sprintf("%s: unconditional channel send at %s:%d can block for ever once the receiver has gone (%s)", relFuncName(f), filepath.Base(pos.Filename), pos.Line, why)})
+						ord++
+					}
+				}
+			}
+		}
+		obs = append(obs, tableOb{name: pc.ID + "#send:sites", ok: len(obs) >= 4, what: fmt.Sprintf("only %d channel sends found in kmipserver and kmipclient (%d unconditional): the check would be vacuous", len(obs), plain)})
+		er := tableResult(pc, obs, replayDir, []string{
+			"channel sends: structural rule over go/ssa of kmipserver and kmipclient (selects with an alternative; buffered channels found through the struct field that carries them); that at most one value is sent on a buffered channel of capacity 1 is not checked; receives and other blocking operations are not covered",
+		})
+		for i := range er.violations {
+			er.violations[i] += " no-failing-input-found"
+		}
+		for i := range er.records {
+			er.records[i].Kind = "gframe"
+			er.records[i].Func = "channel sends"
+			er.records[i].Solver = "structural rule over go/ssa (no solver needed)"
 		}
 		return er
 	}
